@@ -7,7 +7,7 @@
    share). *)
 From Coq Require Import String ZArith List Bool.
 From HD Require Import Base.Val C16_Model C16_Proofs C16_Proofs_Acc C16_Proofs_Mixed C16_Proofs_Codes C16_Proofs_Tree
-  C16_Proofs_E2E.
+  C16_Proofs_E2E C16_Proofs_General C16_Proofs_Construct.
 Import ListNotations.
 Open Scope Z_scope.
 
@@ -351,3 +351,81 @@ Theorem C16_planar_polyline3d_overstrict :
   get_planar (report [] [polyline3d_group]) polyline3d_filter = Err "ValueError"%string.
 Proof. exact planar_polyline3d_overstrict. Qed.
 Print Assumptions C16_planar_polyline3d_overstrict.
+
+(* ==== exactness WITHOUT the classifiability guard: every report of records the template classes accept (wfp g :=
+   wf g = true), typed or not, ambiguous content included.  eff_kind k g = the constructed kind is k when the
+   container carries template identification; otherwise what the ROI content says (one image region, a segmentation
+   frame or a region in space: planar; two or more regions, a segment, a volume surface or a region in space:
+   volumetric; neither: image).  C16_query_exact_planar / _volumetric / _image are the special case classifiable
+   (first clause of C16_effective_kind); the other clauses: every record is seen by some query, an image group by
+   no other, and by both ROI queries only an untyped region in space. ==== *)
+Theorem C16_query_exact_general : forall k pre gs f, no_im pre = true -> Forall wfp gs -> qcheck k f = Ok tt ->
+  query k (report pre gs) f = Ok (map build (filter (fun g => eff_kind k g && satk k f g) gs)).
+Proof. exact query_exact_general. Qed.
+Print Assumptions C16_query_exact_general.
+
+Theorem C16_effective_kind : forall g, wf g = true ->
+  (classifiable g = true -> forall k, eff_kind k g = kind_eqb (g_kind g) k) /\
+  eff_kind Planar g || eff_kind Volumetric g || eff_kind ImageK g = true /\
+  (eff_kind ImageK g = true -> eff_kind Planar g = false /\ eff_kind Volumetric g = false) /\
+  (eff_kind Planar g = true -> eff_kind Volumetric g = true ->
+   g_has_tid g = false /\ exists c i, g_ref g = RegionInSpace c i).
+Proof. exact effective_kind. Qed.
+Print Assumptions C16_effective_kind.
+
+Example C16_general_nonvacuous :
+  Forall wfp amb_gs /\
+  map (eff_kind Planar) amb_gs = [true; true; false] /\ map (eff_kind Volumetric) amb_gs = [false; true; true] /\
+  positions (query Planar (report [] amb_gs) (Filt (Some 1) (Some 110) None None (G2 4) None None)) = VL [VZ 1000] /\
+  positions (query Volumetric (report [] amb_gs) (Filt None (Some 110) None None GNone None (Some 4))) = VL [VZ 1001] /\
+  positions (query Volumetric (report [] amb_gs) (Filt None (Some 110) None None GNone None None)) = VL [VZ 1001; VZ 1002].
+Proof. exact general_nonvacuous. Qed.
+Print Assumptions C16_general_nonvacuous.
+
+(* ==== the premise `wf` / `ref_ok` against the CONSTRUCTORS: construct_planar / construct_volumetric are the argument
+   checks of the two ROI template classes on objects built by make_obj (ReferencedSegment / VolumeSurface argument
+   checks included); cp_spec / cv_spec = objects first, then the group (what run_construct_* observe).  Every accepted
+   planar construction yields a reference ref_ok describes; every accepted volumetric one too, or an UNDOCUMENTED one
+   (empty source image list, empty volume surface); every reference ref_ok describes is constructible (a region in
+   space apart); a documented construction yields a record the theorems speak about. ==== *)
+Theorem C16_construct_planar_sound : forall region segment r,
+  construct_planar region segment = Ok r -> ref_ok Planar r = true.
+Proof. exact construct_planar_sound. Qed.
+Print Assumptions C16_construct_planar_sound.
+
+Theorem C16_construct_volumetric_sound_partial : forall regions surface segment r,
+  construct_volumetric regions surface segment = Ok r -> ref_ok Volumetric r = true \/ undocumented r = true.
+Proof. exact construct_volumetric_sound_partial. Qed.
+Print Assumptions C16_construct_volumetric_sound_partial.
+
+Theorem C16_construct_complete : forall k r, ref_ok k r = true -> constructible r ->
+  match k with
+  | Planar => exists region segment, cp_spec region segment = Ok (Ok r)
+  | Volumetric => exists regions surface segment, cv_spec regions surface segment = Ok (Ok r)
+  | ImageK => True
+  end.
+Proof. exact construct_complete. Qed.
+Print Assumptions C16_construct_complete.
+
+Theorem C16_constructed_group_good_partial : forall k r,
+  match k with
+  | Planar => exists region segment, construct_planar region segment = Ok r
+  | Volumetric => exists regions surface segment, construct_volumetric regions surface segment = Ok r
+  | ImageK => False
+  end ->
+  undocumented r = false -> good (bare_group k r).
+Proof. exact constructed_group_good_partial. Qed.
+Print Assumptions C16_constructed_group_good_partial.
+
+(* the full clause "a group the constructor accepts reports the reference it was constructed with" is FALSE of the
+   code as it is (real defect, replayed on /repo): an empty source image list / an empty graphic data list is accepted
+   and the group then raises RuntimeError in referenced_segment / roi / reference_type *)
+Theorem C16_constructed_reference_reported_refuted :
+  (exists r, cv_spec None None (Some (SpSegment 3 11 (SrcArg (Some []) None))) = Ok (Ok r) /\
+             acc_segment (build (bare_group Volumetric r)) = Err "RuntimeError"%string) /\
+  (exists r, cv_spec None (Some (SpSurface 6 1 (SrcArg (Some []) None))) None = Ok (Ok r) /\
+             acc_vol_roi (build (bare_group Volumetric r)) = Err "RuntimeError"%string) /\
+  (exists r, cv_spec None (Some (SpSurface 1 0 (SrcArg None (Some 2)))) None = Ok (Ok r) /\
+             acc_reference_type allowed_volumetric (build (bare_group Volumetric r)) = Err "RuntimeError"%string).
+Proof. exact constructed_reference_reported_refuted. Qed.
+Print Assumptions C16_constructed_reference_reported_refuted.
